@@ -1,5 +1,6 @@
 import TaurexModel.Proto
 import TaurexModel.Sigma
+import TaurexModel.MixLookup
 import TaurexModel.Transmission
 import TaurexModel.Ops.C01
 
@@ -43,8 +44,43 @@ def sigmaScaledOp (args : List String) : Option String :=
     let comps := (ls.zip ms).map fun (x, m) => compScaled (fn1 x) (fn1 m)
     pure (out3 nl nwn comps)) args
 
+/-- a table of the chemistry: (name, row over the layers) pairs -/
+def tableP : P (List (String × (Nat → Float))) :=
+  listOf (do
+    let nm ← tok
+    let row ← listOf flt
+    pure (nm, fn1 row))
+
+def fTable (nl : Nat) (t : List (String × (Nat → Float))) : String :=
+  fList (fun p => p.1 ++ " " ++ fList fF ((List.range nl).map p.2)) t
+
+/-- `c03.gasmix nl active inactive name` → the row `Chemistry.get_gas_mix_profile(name)` hands out (`none`: KeyError) -/
+def gasMixOp (args : List String) : Option String :=
+  run (do
+    let nl ← nat
+    let act ← tableP
+    let ina ← tableP
+    let name ← tok
+    pure (fOpt (fun r => fList fF ((List.range nl).map r)) (Taurex.MixLookup.gasMix act ina name))) args
+
+/-- `c03.makefree nl active inactive free` (free = name, profile, 1 if an opacity is available for the molecule) → the active
+    and the inactive table of the chemistry wrapped with `MakeFreeMixin` after `initialize_chemistry` -/
+def makeFreeOp (args : List String) : Option String :=
+  run (do
+    let nl ← nat
+    let act ← tableP
+    let ina ← tableP
+    let free ← listOf (do
+      let nm ← tok
+      let row ← listOf flt
+      let ca ← bool
+      pure ({ mol := nm, prof := fn1 row, canAbsorb := ca } : Taurex.MixLookup.Free Float))
+    pure (fTable nl (Taurex.MixLookup.freedActive act ina free) ++ " " ++
+          fTable nl (Taurex.MixLookup.freedInactive act ina free))) args
+
 def ops : List Op :=
-  [("c03.sigma_abs", sigmaAbsOp), ("c03.sigma_cia", sigmaCiaOp), ("c03.sigma_scaled", sigmaScaledOp)]
+  [("c03.sigma_abs", sigmaAbsOp), ("c03.sigma_cia", sigmaCiaOp), ("c03.sigma_scaled", sigmaScaledOp),
+   ("c03.gasmix", gasMixOp), ("c03.makefree", makeFreeOp)]
   ++ Taurex.Ops.C01.ops
 
 end Taurex.Ops.C03
